@@ -32,32 +32,36 @@ def loadText (t : Str) : Except String Manifest :=
     | .error e => .error s!"ERR:Load:{e.name}:{encodeStr e.arg}"
     | .ok m => .ok m
 
-def pairs : List Str → List (Str × Str)
+def pairs : List String → List (String × String)
   | a :: b :: r => (a, b) :: pairs r
   | _ => []
 
-def verdict (g : Graph Str) (fs : List Str) (reqs : List (Str × Str)) : String :=
+def encS (l : List String) : String := encodeStrList (l.map String.toList)
+
+def verdict (g : Graph String) (fs : List String) (reqs : List (String × String)) : String :=
   let es := g.edges
   let r1 := rulesDefined g
   let r2 := outputsDisjoint es
   let r3 := acyclicB es
   let r4 := closedB fs es
   let r5 := reqsOk es reqs
-  let wf := wellFormed g fs reqs
-  let dup := match firstDup (allOuts es) with | some d => encodeStr d | none => ""
+  let wf := r1 && r2 && r3 && r4 && r5   -- = wellFormed g fs reqs (by definition)
+  let dup := if r2 then "" else match firstDup (allOuts es) with | some d => encodeStr d.toList | none => ""
   let missing := if r4 then [] else (missingInputs fs es).eraseDups
   let unreached := if r5 then [] else
-    (reqs.filter (fun rt => !decide (rt.2 ∈ reachSet es rt.1))).map (fun rt => rt.1 ++ '>' :: rt.2)
+    (reqs.filter (fun rt => !decide (rt.2 ∈ reachSet es rt.1))).map (fun rt => rt.1 ++ ">" ++ rt.2)
   let stuck := if r3 then 0 else (kahnStuck es.length es).length
   let badrules := (es.filter (fun e => !ruleOk g.rules e)).map (·.rule) |>.eraseDups
   s!"OK|wf={boolStr wf}|rules={boolStr r1}|unique={boolStr r2}|acyclic={boolStr r3}|closed={boolStr r4}|reach={boolStr r5}" ++
-  s!"|dup={dup}|missing={encL missing}|unreached={encL unreached}|stuck={stuck}|badrules={encL badrules}" ++
+  s!"|dup={dup}|missing={encS missing}|unreached={encS unreached}|stuck={stuck}|badrules={encL badrules}" ++
   s!"|edges={es.length}"
 
-def decodeEdge (s : String) : Edge Str :=
+def strs (f : String) : List String := (decodeStrList f).map String.ofList
+
+def decodeEdge (s : String) : Edge String :=
   match s.splitOn ";" with
-  | [r, o, i, v] => { rule := decodeStr r, outs := decodeStrList o, ins := decodeStrList i, vals := decodeStrList v }
-  | [r, o, i] => { rule := decodeStr r, outs := decodeStrList o, ins := decodeStrList i }
+  | [r, o, i, v] => { rule := decodeStr r, outs := strs o, ins := strs i, vals := strs v }
+  | [r, o, i] => { rule := decodeStr r, outs := strs o, ins := strs i }
   | _ => { rule := [], outs := [], ins := [] }
 
 def decodeOp (s : String) : Option Emit.Op :=
@@ -103,14 +107,14 @@ def handle (cmd : String) (fs : List String) : String :=
     | .ok m =>
       let es := m.graph.edges
       let outs := allOuts es
-      "OK|" ++ encL ((es.flatMap (fun e => e.ins ++ e.vals)).eraseDups.filter (fun i => !outs.contains i))
+      "OK|" ++ encS ((es.flatMap (fun e => e.ins ++ e.vals)).eraseDups.filter (fun i => !outs.contains i))
   | "check", [t, f, r] =>
     match loadText (decodeStr t) with
     | .error e => e
-    | .ok m => verdict m.graph (decodeStrList f) (pairs (decodeStrList r))
+    | .ok m => verdict m.graph (strs f) (pairs (strs r))
   | "checkg", [rules, edges, f, r] =>
     let es := if edges.trimAscii.isEmpty then [] else (edges.splitOn "/").map decodeEdge
-    verdict { rules := decodeStrList rules, edges := es } (decodeStrList f) (pairs (decodeStrList r))
+    verdict { rules := decodeStrList rules, edges := es } (strs f) (pairs (strs r))
   | "canon", [p] => encodeStr (canonPath (decodeStr p))
   | "emit", [ops] => emitCmd ops
   | _, _ => "bad-op"
